@@ -109,7 +109,7 @@ def _analyze(o, excludes, post, T, tpath, workdir, tag):
 def replay(o, args, timeout=120, no_known=False):
     """re-execute the obligation concretely in a fresh interpreter without CrossHair tracing"""
     cmd = [sys.executable, "-m", "chx.replay", o.module, o.prop, o.oid, json.dumps(args)]
-    env = dict(os.environ, PYTHONPATH=HERE)
+    env = dict(os.environ, PYTHONPATH=os.environ.get("PYTHONPATH") or HERE)
     if no_known:
         env["CHX_NO_KNOWN"] = "1"
     try:
